@@ -45,8 +45,15 @@ ENTS = [
     ("mplocal", "var", "private", True, "smp"), ("mpinner", "proc", "private", True, "smp"),
     # what a procedure declares besides variables and types: a namelist group in the private procedure, an enumeration in spub
     # (a common block declared in spub is global storage, documented with every unit that names it whatever proc_internals says: see `lcommon` below)
+    # a module in a second source file: file-level metadata of the first file has no say there
+    ("ovpub", "var", "public", True, "oth"), ("ovpriv", "var", "private", True, "oth"), ("ospriv", "proc", "private", True, "oth"), ("otpriv", "type", "private", True, "oth"),
+    # ... and what an internal procedure of the private procedure declares
+    ("sprivin", "proc", "public", True, "spriv-inner"), ("nlinner", "namelist", "public", True, "spriv-inner"), ("nlinv", "var", "public", True, "spriv-inner"),
     ("nlpriv", "namelist", "public", True, "spriv"), ("lenum", "enumerator", "public", True, "spub"), ("lcommon", "common", "public", True, "spub-common"),
 ]
+# FORD describes an internal procedure with its arguments on the page of its host and has no place for what the internal procedure declares itself:
+# nothing is demanded for these when they are selected, but they must not appear when they are not
+NOT_REQUIRED = {"nlinner", "nlinv"}
 HAS_PAGE = {"type": "type", "proc": "proc", "absint": "interface", "generic": "interface"}
 
 
@@ -82,7 +89,8 @@ def source(meta):
           "  subroutine spub(a)"] + m("spub", "    ") + doc("spub", "    ") + ["    integer :: a", "    !! TRCargax", "    integer :: lvar"] + doc("lvar", "    ") + [
           "    enum, bind(c)", "      !! the enumeration itself is documented too", "      enumerator :: lenum = 1"] + doc("lenum", "      ") + ["    end enum", "    integer :: lcv", "    common /lcommon/ lcv"] + doc("lcommon", "    ") + [
           "    type ltype"] + doc("ltype", "      ") + ["      integer :: lc", "    end type ltype", "    call inner()", "    call spriv()", "    a = fpub()", "  contains", "    subroutine inner()"] + doc("inner", "      ") + ["    end subroutine inner", "  end subroutine spub",
-          "  subroutine spriv()"] + doc("spriv", "    ") + ["    integer :: nlv", "    namelist /nlpriv/ nlv"] + doc("nlpriv", "    ") + ["  end subroutine spriv",
+          "  subroutine spriv()"] + doc("spriv", "    ") + ["    integer :: nlv", "    namelist /nlpriv/ nlv"] + doc("nlpriv", "    ") + ["    call sprivin()", "  contains", "    subroutine sprivin()"] + doc("sprivin", "      ") + [
+          "      integer :: nlinv"] + doc("nlinv", "      ") + ["      namelist /nlinner/ nlinv"] + doc("nlinner", "      ") + ["    end subroutine sprivin", "  end subroutine spriv",
           "  subroutine uspub()", "  end subroutine uspub",
           "  integer function fpub()"] + doc("fpub", "    ") + ["    fpub = 1", "  end function fpub",
           "  subroutine gsp_pub_impl(x)", "    !! TRCgspecpubx", "    !!", "    !! second paragraph", "    integer :: x", "  end subroutine gsp_pub_impl",
@@ -95,6 +103,14 @@ def source(meta):
           "    call mpinner()", "  contains", "    subroutine mpinner()"] + doc("mpinner", "      ") + ["    end subroutine mpinner", "  end procedure smp", "end submodule sublib",
           "program prog", "  !! TRCprogx program doc", "  use lib", "  implicit none", "  integer :: pvar"] + doc("pvar") + ["  call spub(1)", "contains", "  subroutine pinner()"] + doc("pinner", "    ") + ["  end subroutine pinner", "end program prog",
           "subroutine ext()", "  !! TRCextx external doc", "  integer :: evar"] + doc("evar") + ["end subroutine ext"]
+    return "\n".join(L) + "\n"
+
+
+def other_source():
+    def doc(name, indent="  "):
+        return [f"{indent}!! {tracer(name)}"]
+    L = (["module oth", "  !! TRCothx", "  implicit none", "  private :: ovpriv, ospriv, otpriv", "  integer :: ovpub"] + doc("ovpub") + ["  integer :: ovpriv"] + doc("ovpriv")
+         + ["  type :: otpriv"] + doc("otpriv", "    ") + ["    integer :: oc", "  end type otpriv", "contains", "  subroutine ospriv()"] + doc("ospriv", "    ") + ["  end subroutine ospriv", "end module oth"])
     return "\n".join(L) + "\n"
 
 
@@ -139,6 +155,10 @@ def expected_selection(display, proc_internals, hide_undoc, overrides):
             sel[name] = sel.get("spub", False) and bool(pi_spub) and shown(e, d_spub)
         elif parent == "spriv":
             sel[name] = sel.get("spriv", False)  # nothing of an unselected procedure is documented
+        elif parent == "oth":
+            sel[name] = shown(e, display)
+        elif parent == "spriv-inner":
+            sel[name] = sel.get("spriv", False) and bool(proc_internals) and shown(e, d_lib)
         elif parent == "spub-common":
             sel[name] = sel.get("spub", False) and not (hide_undoc and not documented)
         elif parent == "lib2":
@@ -189,7 +209,7 @@ def run_config(st: Stats, display, proc_internals, hide_undoc, overrides, search
     if graph:
         # graphs drawn as HTML tables (first hop exceeds the node limit): their rows are links too
         opts.update(graph=True, graph_maxnodes=1)
-    r = fordrun.build({"src/lib.f90": src}, opts, stage="write", proj_body="front page\n")
+    r = fordrun.build({"src/lib.f90": src, "src/other.f90": other_source()}, opts, stage="write", proj_body="front page\n")
     st.evaluations += 1
     stratum = "overrides:" + ("+".join(sorted(overrides)) or "none")
     inp = dict(display=display, proc_internals=proc_internals, hide_undoc=hide_undoc, overrides={k: v for k, v in raw_overrides.items()}, search=search, graph=graph)
@@ -222,11 +242,13 @@ def run_config(st: Stats, display, proc_internals, hide_undoc, overrides, search
                                 if isinstance(e, dict) and str(e.get("url", "")) not in ("type/tchild2.html", "module/lib2.html"))
             st.transitions += 1
             f = dict(feats, entity=name, kind=kind, permission=perm, documented=documented, parent=parent)
-            if selected:
+            if selected and name in NOT_REQUIRED:
+                pass
+            elif selected:
                 if tr and not where:
                     bad += 1
                     st.violation("selected-entity-not-documented", stratum, f, inp, "tracer on no page", f"{tr} on the parent's page")
-                if kind in HAS_PAGE and parent in ("lib",):
+                if kind in HAS_PAGE and parent in ("lib", "oth"):
                     page = f"{HAS_PAGE[kind]}/{name}.html"
                     if page not in site.pages:
                         bad += 1
@@ -236,7 +258,7 @@ def run_config(st: Stats, display, proc_internals, hide_undoc, overrides, search
                     bad += 1
                     st.violation("unselected-entity-leaks", stratum, dict(f, leak="search" if in_search and not where else (where[0].split("/")[0] if where else "")), inp,
                                  dict(pages=where[:4], in_search_index=in_search), "no documentation text of an unselected entity anywhere")
-                if kind in HAS_PAGE and parent == "lib":
+                if kind in HAS_PAGE and parent in ("lib", "oth"):
                     page = f"{HAS_PAGE[kind]}/{name}.html"
                     if page in site.pages:
                         bad += 1
